@@ -460,8 +460,61 @@ class C12(Prop):
                 return out
             if len(set(np.round(vexp['B'], 6))) > 1:
                 labels.append('vrule_slopes_differ')
+        out = scenario_wise_eval(case, lab, labels)
+        if out:
+            return out
         noncontig = any(max(g) - min(g) + 1 != len(g) for g in ev) or [g[0] for g in ev] != sorted(g[0] for g in ev)
         return Outcome.ok(noncontig or len(ev) > 1, labels + (['noncontiguous_or_reordered'] if noncontig else []))
+
+
+def scenario_wise_eval(case, lab, labels):
+    """a bi-affine expression of here-and-now decisions and two random arrays, evaluated at realisations given for all scenarios at
+    once and / or scenario by scenario (assign(..., sw=True)), in both argument orders"""
+    import pandas as pd
+    from rsome import dro, E
+    S = case['S']
+    xv = np.array([1.5, -2.0])
+    m = dro.Model(lab)
+    x = m.dvar(2)
+    z = m.rvar(2)
+    u = m.rvar(1)
+    fs = m.ambiguity()
+    fs.suppset(abs(z) <= 1, abs(u) <= 1)
+    m.minsup(E(x.sum() + z.sum() + u.sum()), fs)
+    m.st(x == xv)
+    with quiet():
+        m.solve(display=False)
+    if m.solution is None or m.solution.x is None or np.isnan(m.solution.objval):
+        return None
+    e = x[0] * u + x @ z + 1.0
+    zv = (np.array(case['zval'], dtype=float).tolist() + [0.5, -1.0])[:2]
+    zs = np.array([[zv[0] + s_, zv[1] - 2 * s_] for s_ in range(S)])
+    us = np.array([[0.5 * s_ - 1.0] for s_ in range(S)])
+    uv = np.array([2.0])
+    val = lambda zz, uu: np.array([xv[0] * uu[0] + xv @ zz + 1.0])
+    combos = [('e(u.assign(sw), z.assign)', lambda: e(u.assign(us, sw=True), z.assign(np.array(zv))), [val(zv, us[s_]) for s_ in range(S)]),
+              ('e(z.assign, u.assign(sw))', lambda: e(z.assign(np.array(zv)), u.assign(us, sw=True)), [val(zv, us[s_]) for s_ in range(S)]),
+              ('e(z.assign(sw), u.assign)', lambda: e(z.assign(zs, sw=True), u.assign(uv)), [val(zs[s_], uv) for s_ in range(S)]),
+              ('e(u.assign, z.assign(sw))', lambda: e(u.assign(uv), z.assign(zs, sw=True)), [val(zs[s_], uv) for s_ in range(S)]),
+              ('e(z.assign(sw), u.assign(sw))', lambda: e(z.assign(zs, sw=True), u.assign(us, sw=True)), [val(zs[s_], us[s_]) for s_ in range(S)]),
+              ('e(z.assign, u.assign)', lambda: e(z.assign(np.array(zv)), u.assign(uv)), [val(zv, uv)] * S),
+              ('e(z.assign(sw))', lambda: e(z.assign(zs, sw=True)), [val(zs[s_], [0.0]) for s_ in range(S)])]
+    for what, f, expect in combos:
+        res = f()
+        if isinstance(res, pd.Series):
+            if list(res.index) != list(lab):
+                return Outcome.fail('dro:sw_labels', '%s is indexed by %s, scenario labels are %s' % (what, list(res.index), list(lab)), labels)
+            got = [np.asarray(res[l_], dtype=float).ravel() for l_ in lab]
+        else:
+            if 'sw' in what and S > 1 and any(not np.allclose(expect[0], e_) for e_ in expect):
+                return Outcome.fail('dro:sw_eval', '%s returned the single value %s, expected one value per scenario: %s' % (
+                    what, np.asarray(res).tolist(), [e_.tolist() for e_ in expect]), labels)
+            got = [np.asarray(res, dtype=float).ravel()] * S
+        for s_ in range(S):
+            if not np.allclose(got[s_], expect[s_], rtol=1e-7, atol=1e-7):
+                return Outcome.fail('dro:sw_eval', '%s gives %s for scenario %r, expected %s' % (what, got[s_].tolist(), lab[s_], expect[s_].tolist()), labels)
+    labels.append('scenario_wise_eval')
+    return None
 
 
 PROP = C12()
